@@ -2,10 +2,11 @@
 from harness import qcommon
 from vlib.runner import CheckSpec, Cube
 from vlib.stubs import qsim
-from vlib.stubs.qsim import ADD, DISCONNECT, FINISH, KILL, PULL, READD, RUN, SETINFO, TICK, WAIT, WATCHDOG
+from vlib.stubs.qsim import ADD, DISCONNECT, DROP, FINISH, FINISH_ID, KILL, PULL, READD, RUN, SETINFO, TICK, WAIT, WATCHDOG
 
 PROPS = ("C16", "C17", "C18")  # the C16/C17 oracles are only consulted after a restart (qsim.Sim.want)
 FULL = (ADD, PULL, RUN, FINISH, KILL, TICK, DISCONNECT, WAIT, SETINFO, READD, WATCHDOG)
+DROPS = (ADD, DROP, PULL, KILL, WAIT)  # a job marked by qdrop is still a job until it has finished and been waited for
 
 
 def h_bmc(**kw):
@@ -44,14 +45,16 @@ def build(tier: str) -> CheckSpec:
     if tier == "quick":
         cubes += qcommon.with_restore(qcommon.bmc_cubes(h_bmc, "bmc", 3, FULL, 1, 200, PROPS), [1, 2])
         cubes += qcommon.with_restore(qcommon.bmc_cubes(h_bmc, "readd", 4, (ADD, KILL, READD, PULL), 2, 200, PROPS), [4])
+        cubes += qcommon.with_restore(qcommon.bmc_cubes(h_bmc, "drop", 3, DROPS, 1, 200, PROPS), [1, 2, 3])
         cubes += qcommon.with_restore(qcommon.nf_cubes(h_nf, "nf1", 1, 2, FULL, 240, PROPS), [0])
         cubes += qcommon.with_restore(qcommon.nf_cubes(h_nf, "nf2", 2, 1, FULL, 200, PROPS), [0])
-        b = {"bmc": "3 operations + restart at positions 1..2", "readd": "4 operations over add/kill/re-add/pull, then restart", "normal-form prefix": "1 staged job, restart, 2 ops; 2 staged jobs, restart, 1 op"}
+        b = {"bmc": "3 operations + restart at positions 1..2", "readd": "4 operations over add/kill/re-add/pull, then restart", "drop": "3 operations over add/drop/pull/kill/wait + restart at positions 1..3", "normal-form prefix": "1 staged job, restart, 2 ops; 2 staged jobs, restart, 1 op"}
     else:
         cubes += qcommon.with_restore(qcommon.bmc_cubes(h_bmc, "bmc", 4, FULL, 2, 2400, PROPS), [1, 2, 3, 4])
+        cubes += qcommon.with_restore(qcommon.bmc_cubes(h_bmc, "drop", 4, DROPS, 2, 2400, PROPS), [1, 2, 3, 4])
         cubes += qcommon.with_restore(qcommon.nf_cubes(h_nf, "nf2", 2, 2, FULL, 2400, PROPS), [0, 1])
         cubes += qcommon.with_restore(qcommon.nf_cubes(h_nf, "nf3", 3, 1, FULL, 2400, PROPS), [0])
-        b = {"bmc": "4 operations + restart at positions 1..4", "normal-form prefix": "2 staged jobs, restart at 0/1, 2 ops; 3 staged jobs, restart, 1 op"}
+        b = {"bmc": "4 operations + restart at positions 1..4", "drop": "4 operations over add/drop/pull/kill/wait + restart at positions 1..4", "normal-form prefix": "2 staged jobs, restart at 0/1, 2 ops; 3 staged jobs, restart, 1 op"}
     cubes.append(Cube("twin: pulled job pullable again after restart", h_twin, {"b1": int, "b2": int}, {}, timeout=60, role="twin"))
     return CheckSpec(
         property_id="C18",
